@@ -130,10 +130,13 @@ class FitLoop(NdContract):
             return args[0].count
         if name in ("DummyClassifier", "sklearn.dummy.DummyClassifier"):
             return Abstract("est", kind="constant", trained_for=None, constant=kwargs.get("constant"))
-        if name == "copy.deepcopy" and args and args[0] is self.estimator:
+        if name in ("copy.deepcopy", "sklearn.base.clone", "sklearn.clone") and args and args[0] is self.estimator:
             return Abstract("est", kind="copy_of_the_base_estimator", trained_for=None)
+        if name == "copy.copy" and args and args[0] is self.estimator:
+            return Abstract("est", kind="shallow_copy", trained_for=None)          # shares the nested objects of a composite estimator (Pipeline steps, ...)
         if name == "fit" and isinstance(recv, Abstract) and recv.tag == "est":
             kk = st.env["$k0"]
+            eng.oblige(st, "every_grid_point_trains_its_own_independent_copy_of_the_estimator", BoolVal(recv.kind in ("copy_of_the_base_estimator", "constant")), "wiring", node)
             labels, w = (args[1] if len(args) > 1 else None), kwargs.get("sample_weight")
             eng.oblige(st, "learner_gets_X_unchanged_and_weights_under_sample_weight_name", BoolVal(bool(args) and args[0] is self.X and is_nd(w) and set(kwargs) == {"sample_weight"}), "wiring", node)
             if not (is_nd(labels) and is_nd(w) and labels.cell and w.cell):
@@ -275,3 +278,33 @@ class Delegate(NdContract):
         ok = status == "return" and self.called is not None and self.called[0] == self.method and self.called[1] is self.best \
             and len(self.called[2]) == 1 and self.called[2][0] is self.X and isinstance(value, Abstract) and value.tag == "prediction"
         return [(f"{self.method}_delegates_to_the_selected_predictor_with_the_given_X", BoolVal(bool(ok)))]
+
+
+
+def _native_case(c):
+    from ..bounded import C09 as X
+    try:
+        return X._check(c)[2]
+    except Exception:
+        return None
+
+
+def _fit_native_search(self, ob, r):
+    """bounded native search after a refuted / undecided obligation: the real GridSearch.fit with the exact learners of the stand-in (vf/bounded/C09.py)
+    on ~300 seeded small cases (forked pool); findings already recorded for the unchanged tree are skipped"""
+    import multiprocessing as mp
+    import os
+    from ..bounded import C09 as X
+    cases = X._cases(0, 8, 1, 30)[:320]
+    known = {"C09:grid:duplicates:empty-event-group-cell", "C09:fit:raises:constant-real-labels"}
+    workers = int(os.environ.get("VF_WORKERS", "0") or 0) or min(16, os.cpu_count() or 4)
+    with mp.get_context("fork").Pool(workers) as pool:
+        for res in pool.imap(_native_case, cases, chunksize=8):
+            if res is not None and res[0] not in known:
+                key, what, rp = res
+                pool.terminate()
+                return {"confirmed": True, "key": key, "what": what, "replay": rp}
+    return {"confirmed": False}
+
+
+FitLoop.replay = _fit_native_search
